@@ -19,7 +19,12 @@
 (*           and starts to stage; Work(pids) work() returned; the events   *)
 (*           in between happened while it was busy (other threads)         *)
 (*         Active(pid) JobEnds(pid, state, final, asked, listening)        *)
-(*         Request(api, uids, own)  api = kill | cancel | raw | close      *)
+(*         Request(api, uids, own)  api = kill | cancel | raw | close |    *)
+(*           pclose | sclose (PilotManager.close / Session.close with      *)
+(*           e.terminate); msgs carry fwd: the message is forwarded to the *)
+(*           agents - a forwarded `terminate` makes every agent stop (the  *)
+(*           base component's _control_cb; Agent_0 records cause cancel),  *)
+(*           a forwarded cancel_pilots the agents of the uids it lists     *)
 (*         Deliver(msg) End                                                *)
 (*                                                                         *)
 (* Total: failing clauses go to errs, the monitor re-synchronises on post. *)
@@ -79,9 +84,17 @@ Init ==
   /\ jd = {} /\ ann = {} /\ owe = {}
 
 \* who a request names (the manager's "all" is every pilot it holds)
+IsClose(e) == e.api \in {"pclose", "sclose"}
 Names(e) == LET U == SeqSet(e.uids) IN
             IF ~e.own THEN {}
+            ELSE IF IsClose(e) THEN (IF e.terminate THEN Pids ELSE {})
             ELSE IF e.api = "close" \/ U = {} THEN Pids ELSE U \cap Pids
+\* the pilots the messages of an event tell to end: their agents (forwarded terminate / cancel)
+Told(e) == UNION {IF ~m.fwd THEN {} ELSE IF m.cmd = "terminate" THEN Pids
+                  ELSE IF m.cmd = "cancel_pilots" THEN SeqSet(m.uids) \cap Pids ELSE {} : m \in SeqSet(e.msgs)}
+\* ... or the launcher (kill message of this manager)
+KillNamed(e) == UNION {IF m.cmd = "kill_pilots" /\ m.own THEN (IF m.uids = <<>> THEN Pids ELSE SeqSet(m.uids) \cap Pids)
+                       ELSE {} : m \in SeqSet(e.msgs)}
 \* the control messages a request has to send: <<cmd, own, uids>>*
 Wanted(e) == LET U == SeqSet(e.uids)
                  V == IF U = {} THEN Pids ELSE U IN
@@ -93,6 +106,7 @@ Wanted(e) == LET U == SeqSet(e.uids)
 \* clauses every event has to satisfy, given who is named / externally canceled after it
 Common(e, nm, ex) ==
        E(\A x \in Pubs(e) : x[2] = "CANCELED" => x[1] \in nm \cup ex, "C14.KilledNotNamed")
+  \cup E(Told(e) \subseteq nm, "C14.KilledNotNamed")
   \cup E(\A x \in Cbs(e)  : x[2] = "CANCELED" => x[1] \in nm \cup ex, "C14.KilledNotNamed")
   \cup E(SeqSet(e.jobc) \subseteq nm, "C14.KilledNotNamed")
   \cup E(\A p \in Pids : Post(e, p).pre => p \in nm, "C14.KilledNotNamed")
@@ -150,13 +164,19 @@ Step ==
                    got  == e.msgs IN
                /\ named' = nm /\ UNCHANGED <<ext, wk, owe>>
                /\ errs' = errs \cup Common(e, nm, ext)
-                    \cup E(Len(got) <= Len(want), "C14.KilledNotNamed")
+                    \* what this request sends tells nobody to end whom it does not name
+                    \cup E(Told(e) \cup KillNamed(e) \subseteq Names(e) \/ ~e.own, "C14.KilledNotNamed")
+                    \cup (IF IsClose(e)
+                          \* close with terminate: every pilot is told to end (agent) or named to the launcher
+                          THEN E(e.terminate => Pids \subseteq Told(e) \cup KillNamed(e), "C14.NamedNotKilled")
+                          ELSE
+                       E(Len(got) <= Len(want), "C14.KilledNotNamed")
                     \cup E(Len(got) >= Len(want), "C14.NamedNotKilled")
                     \cup UNION {   E(got[i].cmd = want[i][1], "C14.NamedNotKilled")
                               \cup E(SeqSet(got[i].uids) \subseteq want[i][2], "C14.KilledNotNamed")
                               \cup E(want[i][2] \subseteq SeqSet(got[i].uids), "C14.NamedNotKilled")
                               \cup E(got[i].own = e.own, "X.Sender")
-                              : i \in 1 .. (IF Len(got) < Len(want) THEN Len(got) ELSE Len(want))}
+                              : i \in 1 .. (IF Len(got) < Len(want) THEN Len(got) ELSE Len(want))})
           [] e.ev = "Deliver" ->
                LET m    == e.msg
                    kill == m.cmd = "kill_pilots" /\ m.own
